@@ -11,6 +11,7 @@ Not yet proved (decided per explored input by the reference encoder + correspond
 write = spec and decode ∘ encode for the multi types and nested collections.
 -/
 import GeomVerif.Lemmas.Wkb
+import GeomVerif.Lemmas.WkbRead
 import GeomVerif.Properties.C01
 
 namespace GeomVerif.Wkb
@@ -98,9 +99,132 @@ theorem C03_writer_fault_prefix (a : WR) (b : Unit → WR) :
   | some e => simp [h]
   | none => simp [h]
 
+
+/-! ### Decoding what was encoded -/
+
+/-- **WKB LineString round trip**: reading the reference encoding (= what the library writes, by
+`C03_wkb_lineString_eq_spec`) of any coordinate list in any encodable layout and either byte order
+yields exactly that LineString — same layout, same structure, every ordinate bit for bit — consumes
+exactly the encoding (any trailing bytes are left for the next geometry) and allocates exactly the
+coordinates. WKB proper carries no SRID, so the result's SRID is 0. -/
+theorem C03_wkb_lineString_roundtrip (ndr nan : Bool) (l : Layout) (hl : encodable l = true) (s : Int)
+    (cs : List (List Ord)) (hall : ∀ c ∈ cs, c.length = l.stride) (hn : cs.length < 4294967296)
+    (rest : List Byte) (fuel a : Nat) :
+    readGeom false nan {} (fuel + 1) ⟨encLine (.wkb nan) ndr l s cs ++ rest, a⟩
+      = .ok (.lineString ⟨l, l.stride, cs.flatten, 0⟩, ⟨rest, a + 2 * (cs.length * l.stride)⟩) := by
+  have hflat : cs.flatten.length = cs.length * l.stride := flatten_length_of_all cs l.stride hall
+  have hrd := readFlatCoords1_written {} ndr l.stride cs.length cs.flatten rest a hn hflat rfl
+  rcases encodable_cases l hl with rfl | rfl | rfl | rfl <;> cases ndr <;>
+    simp [readGeom, encLine, header, wCoords_eq, ← u32Bytes_eq_w32, readByte_cons, Outcome.bind_ok,
+      readU32_u32Bytes, pointID, lineStringID, hrd]
+
+/-- **WKB Polygon round trip**: ring count, rings (empty ones included) and every ordinate come
+back; the end offsets are the ones SetCoords computes (`endsOf`). -/
+theorem C03_wkb_polygon_roundtrip (ndr nan : Bool) (l : Layout) (hl : encodable l = true) (s : Int)
+    (rings : List (List (List Ord))) (hall : ∀ c ∈ rings.flatten, c.length = l.stride)
+    (hn : rings.length < 4294967296) (hnr : ∀ r ∈ rings, r.length < 4294967296)
+    (rest : List Byte) (fuel a : Nat) :
+    readGeom false nan {} (fuel + 1) ⟨encPoly (.wkb nan) ndr l s rings ++ rest, a⟩
+      = .ok (.polygon ⟨l, l.stride, rings.flatten.flatten, endsOf 0 rings, 0⟩,
+          ⟨rest, a + rings.length + 2 * (rings.flatten.length * l.stride)⟩) := by
+  have hrr := readRings_written ndr l.stride rings hall hnr rest [] [] (a + rings.length)
+  simp only [List.nil_append, List.length_nil] at hrr
+  rcases encodable_cases l hl with rfl | rfl | rfl | rfl <;> cases ndr <;>
+    simp [readGeom, encPoly, header, ← u32Bytes_eq_w32, readByte_cons, Outcome.bind_ok,
+      readU32_u32Bytes, pointID, lineStringID, polygonID, readFlatCoords2, Nat.mod_eq_of_lt hn,
+      exceeds, hrr]
+
+/-- **WKB Point round trip**: the ordinates come back bit for bit (in NaN mode a point whose
+ordinates are all the canonical NaN is the EMPTY point, by definition of that mode). -/
+theorem C03_wkb_point_roundtrip (ndr nan : Bool) (l : Layout) (hl : encodable l = true) (s : Int)
+    (c : List Ord) (hc : c.length = l.stride) (rest : List Byte) (fuel a : Nat) :
+    readGeom false nan {} (fuel + 1) ⟨header (.wkb nan) ndr 1 l s ++ wCoord ndr c ++ rest, a⟩
+      = .ok (.point (if nan then pointMaybeEmpty l c else ⟨l, l.stride, c, 0⟩),
+          ⟨rest, a + 2 * l.stride⟩) := by
+  have hrd := readFloats_writeFloats ndr c rest
+  rw [hc] at hrd
+  rcases encodable_cases l hl with rfl | rfl | rfl | rfl <;> cases ndr <;> cases nan <;>
+    simp [readGeom, header, ← u32Bytes_eq_w32, ← writeFloats_eq_wCoord, readByte_cons,
+      Outcome.bind_ok, readU32_u32Bytes, pointID, hrd, pointMaybeEmpty] <;>
+    (split <;> rfl)
+
+/-- **EWKB LineString round trip**, with and without an SRID in [0, 2³²): layout flags, SRID word,
+count and ordinates decode to the same LineString with the same SRID. -/
+theorem C03_ewkb_lineString_roundtrip (ndr : Bool) (l : Layout) (hl : encodable l = true) (s : Int)
+    (hs0 : 0 ≤ s) (hs1 : s < 4294967296)
+    (cs : List (List Ord)) (hall : ∀ c ∈ cs, c.length = l.stride) (hn : cs.length < 4294967296)
+    (rest : List Byte) (fuel a : Nat) :
+    readGeom true false {} (fuel + 1) ⟨encLine .ewkb ndr l s cs ++ rest, a⟩
+      = .ok (.lineString ⟨l, l.stride, cs.flatten, s⟩, ⟨rest, a + 2 * (cs.length * l.stride)⟩) := by
+  have hflat : cs.flatten.length = cs.length * l.stride := flatten_length_of_all cs l.stride hall
+  have hrd := readFlatCoords1_written {} ndr l.stride cs.length cs.flatten rest a hn hflat rfl
+  have hsn : s.toNat < 4294967296 := by omega
+  have hst : (s.toNat : Int) = s := Int.toNat_of_nonneg hs0
+  by_cases h0 : s = 0
+  · subst h0
+    rcases encodable_cases l hl with rfl | rfl | rfl | rfl <;> cases ndr <;>
+      simp [readGeom, encLine, header, hasZ, hasM, wCoords_eq, ← u32Bytes_eq_w32, readByte_cons,
+        Outcome.bind_ok, readU32_u32Bytes, pointID, lineStringID, ewkbZ, ewkbM, ewkbSRID, hrd]
+  · rcases encodable_cases l hl with rfl | rfl | rfl | rfl <;> cases ndr <;>
+      simp [readGeom, encLine, header, hasZ, hasM, h0, wCoords_eq, ← u32Bytes_eq_w32, readByte_cons,
+        Outcome.bind_ok, readU32_u32Bytes, pointID, lineStringID, ewkbZ, ewkbM, ewkbSRID,
+        Nat.mod_eq_of_lt hsn, hst, hrd]
+
+/-- **decode ∘ encode = id (WKB LineString)**: the bytes the library model writes for a LineString
+decode, through the library model's reader, to the same LineString (SRID 0: WKB proper has none),
+with nothing left over. Composition of `C03_wkb_lineString_eq_spec` and the round trip above. -/
+theorem C03_wkb_lineString_read_write (ndr nan : Bool) (l : Layout) (hl : encodable l = true)
+    (s : Int) (cs : List (List Ord)) (hall : ∀ c ∈ cs, c.length = l.stride)
+    (hn : cs.length < 4294967296) :
+    ∃ g, toModel (.lineString l s cs) = .ok g ∧ (writeWkb ndr nan g.depth g).2 = none ∧
+      readWkb nan {} (writeWkb ndr nan g.depth g).1
+        = .ok (setSrid g 0, ⟨[], 2 * (cs.length * l.stride)⟩) := by
+  obtain ⟨g, hg, hw⟩ := C03_wkb_lineString_eq_spec ndr nan l hl s cs hall
+  have hw1 : writeWkb ndr nan g.depth g = (encLine (.wkb nan) ndr l s cs, none) := (Prod.mk.inj hw).1
+  refine ⟨g, hg, by rw [hw1], ?_⟩
+  have hfind : cs.find? (badLen l.stride) = none := by
+    rw [List.find?_eq_none]; intro c hc; simp [badLen, hall c hc]
+  have hgeq : g = .lineString ⟨l, l.stride, cs.flatten, s⟩ := by
+    simp only [toModel, C01.line_set_eq, hfind, Outcome.bind_ok] at hg
+    exact (Outcome.ok.inj hg).symm
+  have := C03_wkb_lineString_roundtrip ndr nan l hl s cs hall hn [] (encLine (.wkb nan) ndr l s cs).length 0
+  rw [hw1, readWkb]
+  simp only [List.append_nil, Nat.zero_add] at this
+  rw [this, hgeq]; rfl
+
+/-- **decode ∘ encode = id (WKB Polygon)**. -/
+theorem C03_wkb_polygon_read_write (ndr nan : Bool) (l : Layout) (hl : encodable l = true)
+    (s : Int) (rings : List (List (List Ord))) (hall : ∀ c ∈ rings.flatten, c.length = l.stride)
+    (hn : rings.length < 4294967296) (hnr : ∀ r ∈ rings, r.length < 4294967296) :
+    ∃ g, toModel (.polygon l s rings) = .ok g ∧ (writeWkb ndr nan g.depth g).2 = none ∧
+      readWkb nan {} (writeWkb ndr nan g.depth g).1
+        = .ok (setSrid g 0, ⟨[], rings.length + 2 * (rings.flatten.length * l.stride)⟩) := by
+  obtain ⟨g, hg, hw⟩ := C03_wkb_polygon_eq_spec ndr nan l hl s rings hall
+  have hw1 : writeWkb ndr nan g.depth g = (encPoly (.wkb nan) ndr l s rings, none) := (Prod.mk.inj hw).1
+  refine ⟨g, hg, by rw [hw1], ?_⟩
+  have hfind : rings.flatten.find? (badLen l.stride) = none := by
+    rw [List.find?_eq_none]; intro c hc; simp [badLen, hall c hc]
+  have hgeq : g = .polygon ⟨l, l.stride, rings.flatten.flatten, endsOf 0 rings, s⟩ := by
+    simp only [toModel, C01.poly_set_eq, hfind, Outcome.bind_ok] at hg
+    exact (Outcome.ok.inj hg).symm
+  have := C03_wkb_polygon_roundtrip ndr nan l hl s rings hall hn hnr []
+    (encPoly (.wkb nan) ndr l s rings).length 0
+  rw [hw1, readWkb]
+  simp only [List.append_nil, Nat.zero_add] at this
+  rw [this, hgeq]; rfl
+
 /-- Non-vacuity: big-endian XYZ polygon with an empty second ring. -/
 example : (writeWkb false false 2 (.polygon ⟨2, 3, [1, 2, 3], [3, 3], 0⟩)).2 = none ∧
     (writeWkb false false 2 (.polygon ⟨2, 3, [1, 2, 3], [3, 3], 0⟩)).1.take 13
       = [0, 0, 0, 3, 235, 0, 0, 0, 2, 0, 0, 0, 1] := by decide
+
+/-- Non-vacuity of the round trips: a little-endian XYM LineString of two points followed by a
+trailing byte decodes to itself and leaves the byte. -/
+example : readGeom false false {} 100 ⟨encLine (.wkb false) true 3 0 [[1, 2, 3], [4, 5, 6]] ++ [9], 0⟩
+    = .ok (.lineString ⟨3, 3, [1, 2, 3, 4, 5, 6], 0⟩, ⟨[9], 12⟩) := by
+  have := C03_wkb_lineString_roundtrip true false 3 (by decide) 0 [[1, 2, 3], [4, 5, 6]]
+    (by decide) (by decide) [9] 99 0
+  have hs : Layout.stride 3 = 3 := by decide
+  simpa [hs] using this
 
 end GeomVerif.Wkb
